@@ -179,6 +179,14 @@ package server
 //@   at-return requires ret0 != nil && !ret0.IsWithdraw && !peer.isRouteServerClient() && isASLoop(peer, ret0) ==> ret0.IsLocal() && peer.allowAsPathLoopLocal()
 //@   at-return requires ret0 != nil && !ret0.IsWithdraw && peer.IsFamilyEnabled(bgp.RF_RTC_UC) && ret0.GetFamily() != bgp.RF_RTC_UC ==> peer.interestedIn(ret0)
 
+// from C09 "received routes containing the local AS beyond allow-own-as, or the local router-id as ORIGINATOR_ID ...
+// are not used": a route of the UPDATE that is rejected replaces whatever the peer had announced for that prefix
+// before, so the caller is handed its implicit withdrawal - every route of the UPDATE puts exactly one entry on
+// one of the two lists the caller gets (End-of-RIB markers on eor, everything else on paths)
+//@ func (*peer).handleUpdate
+//@   claims step
+//@   loop 0 step len(paths) + len(eor) == header(len(paths) + len(eor)) + 1
+
 // from C09: "received routes containing the local AS beyond allow-own-as ... are not used": the occurrence count runs
 // over the whole AS_PATH (it never restarts between segments), every member adds one per match with the local AS
 // and one per match with a distinct confederation identifier, and the route is refused as soon as, and only
